@@ -10,6 +10,7 @@ import (
 	"os/exec"
 	"path"
 	"path/filepath"
+	"regexp"
 	"runtime/debug"
 	"sort"
 	"strings"
@@ -511,7 +512,22 @@ func c14DrawCase(rt *rapid.T) *c14Case {
 			if rapid.IntRange(0, 5).Draw(rt, lbl+"test") == 0 {
 				name += "_test"
 			}
+			if rapid.IntRange(0, 11).Draw(rt, lbl+"longName") == 0 {
+				// a base name next to which no temporary file can be
+				// created: writing this file back fails, in a run of its
+				// own just as among the others
+				if base := name[strings.LastIndex(name, "/")+1:]; len(base) < 236 {
+					name += strings.Repeat("n", 236-len(base))
+				}
+			}
 			cs.Files[i].Name = name + ".go"
+			if i > 0 && rapid.IntRange(0, 7).Draw(rt, lbl+"hardLink") == 0 {
+				// a second name of an earlier file (same inode, same bytes)
+				t := cs.Files[rapid.IntRange(0, i-1).Draw(rt, lbl+"linkOf")]
+				if t.LinkOf == "" {
+					cs.Files[i].Src, cs.Files[i].Role, cs.Files[i].LinkOf = t.Src, "hard-link:"+t.Role, t.Name
+				}
+			}
 		}
 		cs.Mode = rapid.SampledFrom([]string{"inplace", "inplace", "inplace", "inplace", "diff", "diff", "print"}).Draw(rt, "mode")
 		cs.Verbose = rapid.Bool().Draw(rt, "verbose")
@@ -672,6 +688,9 @@ func c14Covered(files []c14File, args []string) []string {
 
 // c14CLIRun re-creates the tree below base/w holding the given files and
 // runs gopatch there.
+// the random suffix of a temporary file's name, as it appears in messages
+var c14TempSuffix = regexp.MustCompile(`\.gopatch-[0-9]+`)
+
 func c14CLIRun(base string, cs *c14Case, tree []c14File, args []string) *c14Run {
 	o := &c14Run{Files: map[string]string{}}
 	root := filepath.Join(base, "w")
@@ -690,6 +709,16 @@ func c14CLIRun(base string, cs *c14Case, tree []c14File, args []string) *c14Run 
 	if err := run.WriteTree(root, m); err != nil {
 		o.Bad = "harness: " + err.Error()
 		return o
+	}
+	for _, f := range tree {
+		if _, partner := m[f.LinkOf]; f.LinkOf != "" && partner {
+			p := filepath.Join(root, filepath.FromSlash(f.Name))
+			_ = os.Remove(p)
+			if err := os.Link(filepath.Join(root, filepath.FromSlash(f.LinkOf)), p); err != nil {
+				o.Bad = "harness: " + err.Error()
+				return o
+			}
+		}
 	}
 	var argv []string
 	if cs.SkipGen {
@@ -729,7 +758,7 @@ func c14CLIRun(base string, cs *c14Case, tree []c14File, args []string) *c14Run 
 	r := run.CLI(root, nil, argv...)
 	o.Exit = r.Exit
 	o.Stdout = strings.ReplaceAll(string(r.Stdout), base, "$D")
-	o.Stderr = strings.ReplaceAll(string(r.Stderr), base, "$D")
+	o.Stderr = c14TempSuffix.ReplaceAllString(strings.ReplaceAll(string(r.Stderr), base, "$D"), ".gopatch-N")
 	switch {
 	case r.StartErr != "":
 		o.Bad = "harness: start: " + r.StartErr
